@@ -57,6 +57,48 @@ def run(ctx):
                       f"serial branch applies {sorted(w.qualname for w in t.workers)} to {norm(t.task)}; the parallel "
                       f"branch uses {[norm(p.task) for p in par]}: serial and parallel results can differ",
                       key=t.key, where=loc(t.fi, t.call))
+            # P8b: between the point where the two modes part and the two calls, the task list is modified in the
+            # same way in both (a sort / shuffle / filter in one mode only changes result order or content there)
+            tname = t.task.id if isinstance(t.task, ast.Name) else None
+            for p in twins if tname else []:
+                fnode = t.fi.node
+                pm = parents(fnode)
+                anc_t = [a for a in _anc(t.call, pm)]
+                fork = next((a for a in _anc(p.call, pm) if isinstance(a, ast.If) and a in anc_t), None)
+                if fork is None:
+                    continue
+
+                def edits(stmts):
+                    out = []
+                    for st in stmts:
+                        for n in ast.walk(st):
+                            if isinstance(n, ast.Call) and isinstance(n.func, ast.Attribute) and \
+                                    isinstance(n.func.value, ast.Name) and n.func.value.id == tname and \
+                                    n.func.attr in ("sort", "reverse", "pop", "insert", "append", "extend", "remove", "clear"):
+                                out.append(norm(n))
+                            elif isinstance(n, ast.Call) and norm(n.func).split(".")[-1] in ("shuffle",) and n.args and \
+                                    isinstance(n.args[0], ast.Name) and n.args[0].id == tname:
+                                out.append(norm(n))
+                            elif isinstance(n, (ast.Assign, ast.AugAssign)):
+                                tg = n.targets if isinstance(n, ast.Assign) else [n.target]
+                                for x in tg:
+                                    b = x
+                                    while isinstance(b, ast.Subscript):
+                                        b = b.value
+                                    if isinstance(b, ast.Name) and b.id == tname:
+                                        out.append(norm(n))
+                            elif isinstance(n, ast.Delete) and any(tname in norm(x) for x in n.targets):
+                                out.append(norm(n))
+                    return sorted(out)
+                in_body = any(t.call is x for st in fork.body for x in ast.walk(st))
+                e_ser = edits(fork.body if in_body else fork.orelse)
+                e_par = edits(fork.orelse if in_body else fork.body)
+                ctx.check(e_ser == e_par, f"{P}.P8", site,
+                          f"the task list `{tname}` reaches the serial and the parallel call unchanged (or changed alike)",
+                          f"the task list `{tname}` is modified in one mode only (serial branch: {e_ser or 'nothing'}; "
+                          f"parallel branch: {e_par or 'nothing'}): results are collected in task order, so the two modes "
+                          f"produce differently ordered (or different) outputs", key=t.key + ":edits",
+                          where=loc(t.fi, fork), semantic=True)
     # P5/P6 scatter maps of the three per-file writers + combine
     specs = [("amr_kitchen/colander/colander.py", "Colander.strain", "self.cells[lv]['files']",
               "len(self.cells[lv]['files'])", "self.cells[lv]['offsets']", "box_index_map", "mp_calls", False),
